@@ -73,9 +73,13 @@ def cases(rng, tier):
         wo = "xkey:" + sx(xpub)
         yield "wallet " + wo, "import-" + name
         sub = [rng.choice([0, 1, 2, 2 ** 31 - 1, rng.getrandbits(31)]) for _ in range(rng.randint(0, 4))]
-        sp = "/".join(["M"] + [str(i) for i in sub])
+        # (both root markers: the library reads `m` and `M` alike, on full and on watch-only wallets)
+        sp = "/".join([rng.choice(["M", "m"])] + [str(i) for i in sub])
         meta = "%s|%s|%s" % (full, impl.lst(str, exp), impl.lst(str, sub))
         yield "w_bypath %s %s #%s" % (wo, sx(sp), meta), "pub-subpath"
+        other = ("m" if sp[0] == "M" else "M") + sp[1:]
+        yield "w_bypath %s %s #%s" % (wo, sx(other), meta), "pub-subpath-other-marker"
+        yield "w_addr %s %s %s #%s" % (wo, sx(other), rng.choice(KINDS), meta), "pub-subpath-other-marker-addr"
         for kind in KINDS:
             yield "w_addr %s %s %s #%s" % (wo, sx(sp), kind, meta), "addr-" + kind
         yield "w_extkeys %s %s #%s" % (wo, sx(sp), meta), "extkeys"
